@@ -90,6 +90,7 @@ type Val struct {
 	seqElem types.Type // spec-level sequence value (Term is a Seq)
 	seqES   string
 	mapT    *types.Map // spec-level map value (Term is a Map)
+	Boxed   *Val       // interface value made from this value (MakeInterface)
 	Alts    []AltVal   // pointer that is one of several differently shaped addresses (conditions exclusive)
 }
 
